@@ -49,6 +49,9 @@ pub enum IOp {
     Reply { req: usize, kind: RKind, from_router: bool, outer_ihl: u8 },
     Garbage { v4: bool, shape: u8, len: usize },
     Wait { pct: u64 },
+    /// the client ends its _icmp stream (never client 0, which probes the service at the end):
+    /// answers to what it still had pending go to nobody, the other clients are not affected
+    Leave { client: usize },
 }
 
 #[derive(Clone, Debug, Serialize, Deserialize)]
@@ -111,13 +114,15 @@ impl Scenario for Icmp {
         let n_ops = 2 + rng.usize_below(if tier == Tier::Thorough { 24 } else { 14 });
         let mut ops = Vec::new();
         let mut n_req = 0usize;
+        let mut gone: Vec<usize> = Vec::new();
         // a few identifiers so that clients collide on purpose now and then
         let ids: Vec<u16> = (0..3).map(|_| if rng.chance(1, 3) { 1 } else { rng.below(65_536) as u16 }).collect();
         let mut next_seq: Vec<u16> = (0..n_clients).map(|_| rng.below(65_536) as u16).collect();
         for _ in 0..n_ops {
             match rng.below(10) {
                 0..=3 => {
-                    let client = rng.usize_below(n_clients);
+                    let present: Vec<usize> = (0..n_clients).filter(|c| !gone.contains(c)).collect();
+                    let client = *rng.pick(&present);
                     let seq = if rng.chance(1, 8) {
                         rng.below(65_536) as u16
                     } else {
@@ -158,7 +163,8 @@ impl Scenario for Icmp {
                     n_req += 1;
                 }
                 9 => {
-                    let client = rng.usize_below(n_clients);
+                    let present: Vec<usize> = (0..n_clients).filter(|c| !gone.contains(c)).collect();
+                    let client = *rng.pick(&present);
                     let n = 2 + rng.usize_below(3);
                     let id = *rng.pick(&ids);
                     let reqs: Vec<(u16, usize, u16, u8, u16)> = (0..n)
@@ -195,6 +201,13 @@ impl Scenario for Icmp {
                     });
                 }
                 7 => ops.push(IOp::Garbage { v4: rng.chance(1, 2), shape: rng.below(12) as u8, len: rng.usize_below(120) }),
+                8 if n_clients >= 2 && rng.chance(1, 3) => {
+                    let client = 1 + rng.usize_below(n_clients - 1);
+                    if !gone.contains(&client) {
+                        gone.push(client);
+                        ops.push(IOp::Leave { client });
+                    }
+                }
                 _ => ops.push(IOp::Wait {
                     pct: match rng.below(6) {
                         0 => 95 + rng.below(10),
@@ -800,6 +813,15 @@ async fn run(plan: IPlan) -> Obs {
                 sleep_us(2_000).await;
             }
             IOp::Wait { pct } => sleep_us(t_us * pct / 100).await,
+            IOp::Leave { client } => {
+                if let Some(c) = clients.get_mut(client) {
+                    match &mut c.tx {
+                        ClientTx::H2(tx) => tx.send_reset(h2::Reason::CANCEL),
+                        ClientTx::H1(p) => p.reset(),
+                    }
+                }
+                sleep_us(3_000).await;
+            }
         }
         collect(&mut clients, &mut obs, k);
     }
@@ -946,6 +968,10 @@ fn judge(plan: &IPlan, o: &Obs, out: &mut Outcome) {
                 for (n, s) in req_sent.iter().enumerate() {
                     let Some(sw) = &s.wire else { continue };
                     if sw.packet.len() < 8 || sw.t_us > d.at {
+                        continue;
+                    }
+                    // a client that has left is told nothing any more
+                    if plan.ops.iter().take(d.op).any(|op| matches!(op, IOp::Leave { client } if *client == s.client)) {
                         continue;
                     }
                     let sid = u16::from_be_bytes([sw.packet[4], sw.packet[5]]);
@@ -1098,7 +1124,8 @@ fn judge(plan: &IPlan, o: &Obs, out: &mut Outcome) {
         }
     }
     // ---- the service survives the history ------------------------------------------------
-    if o.streams_ended.iter().any(|e| *e) {
+    let left: Vec<usize> = plan.ops.iter().filter_map(|op| if let IOp::Leave { client } = op { Some(*client) } else { None }).collect();
+    if o.streams_ended.iter().enumerate().any(|(k, e)| *e && !left.contains(&k)) {
         out.violate("C11", "icmp:stream-ended", format!("an _icmp stream ended during the history: {:?}", o.streams_ended));
     } else if o.probe_ok == Some(false) {
         out.violate("C11", "icmp:service-dead-after-history", "a fresh request and its reply at the end of the history were not served".to_string());
